@@ -29,6 +29,7 @@ type firstCallsReq struct {
 	Case       *gg.Case `json:"case"`
 	Rounds     int      `json:"rounds"`
 	Goroutines int      `json:"goroutines"`
+	NilInput   bool     `json:"nil_input,omitempty"` // the input is the nil map ("input": null leaves the pointer nil)
 }
 
 type firstCallsRes struct {
@@ -46,7 +47,11 @@ func firstCallsChild() {
 		line, err := in.ReadBytes('\n')
 		if len(line) > 0 {
 			var req firstCallsReq
-			if jerr := json.Unmarshal(line, &req); jerr != nil || req.Case == nil {
+			jerr := json.Unmarshal(line, &req)
+			if jerr == nil && req.Case != nil && req.NilInput {
+				req.Case.Input = gg.NilMap()
+			}
+			if jerr != nil || req.Case == nil || req.Case.Input == nil {
 				_ = out.Encode(firstCallsRes{})
 			} else {
 				var o, sig string
@@ -117,7 +122,8 @@ func concurrentIsolated(c *gg.Case, goroutines, perG int) (string, string) {
 func isolated(phase string, c *gg.Case, rounds, goroutines int) (string, string) {
 	fcMu.Lock()
 	defer fcMu.Unlock()
-	req, err := json.Marshal(firstCallsReq{Phase: phase, Case: c, Rounds: rounds, Goroutines: goroutines})
+	req, err := json.Marshal(firstCallsReq{Phase: phase, Case: c, Rounds: rounds, Goroutines: goroutines,
+		NilInput: c.Input != nil && c.Input.Kind == "nil"})
 	if err != nil {
 		return "", ""
 	}
